@@ -173,7 +173,7 @@ pub fn cli_case(cli: &str, path: &str, inp: &Input, mode: &str, sort: usize, fla
     out
 }
 
-/// the 12 fixed three-statement files (0..3 stable models, two-valued non-stable models, sorting-sensitive and
+/// the 14 fixed three-statement files (0..3 stable models, two-valued non-stable models, sorting-sensitive and
 /// quoted labels incl. characters reserved by biodivine)
 pub fn fixed_inputs() -> Vec<Input> {
     let mk = |labels: [&str; 3], conds: [Fm; 3]| -> Input {
@@ -203,7 +203,72 @@ pub fn fixed_inputs() -> Vec<Input> {
         mk(["A", "a", "1"], [Fm::bin(4, a(0), a(1)), Fm::bin(1, a(1), a(2)), n(a(2))]),
         mk(["k1", "k2", "k3"], [Fm::bin(3, a(1), a(2)), Fm::bin(3, a(0), a(2)), Fm::bin(3, a(0), a(1))]),
         mk(["u", "v", "f"], [Fm::bin(1, a(0), n(a(0))), Fm::bin(0, a(0), a(1)), Fm::bin(2, a(1), a(2))]),
+        // labels that look like escape sequences of each other (underscores, hex codes)
+        mk(["a b", "a_20_b", "_"], [n(a(1)), n(a(0)), Fm::bin(0, a(0), a(2))]),
+        mk(["x_y", "x y", "x_5f_y"], [a(1), a(2), n(a(0))]),
     ]
+}
+
+/// CLI clause of the semantics properties (C01-C05): the given flag sets on the fixed files (sorting-sensitive, quoted
+/// and keyword-like labels) and on presented members of A(2) and F(3,2) (labels not declared in sorted order, ac facts
+/// in another order than the statements), x 3 library modes x 3 sortings (x heuristics where given)
+pub fn cli_slice(run: &Run, flagsets: &[u32], heus: &[Option<usize>]) {
+    let Ok(cli) = std::env::var("ADF_BDD_CLI") else {
+        run.add_family(FamilyCov { name: "CLI clause".into(), size: 1, done: 0, exhaustive: false, note: "ADF_BDD_CLI not set: CLI clause skipped".into() });
+        return;
+    };
+    let tmp = TmpDir::new(&format!("cli-{}", run.prop));
+    let mut inputs = fixed_inputs();
+    for (src, stride) in [(Source::FamPresented(fam_a(2)), 8u64), (Source::FamPresented(fam_f(3, 2)), 1715)] {
+        let mut k = run.seed % stride;
+        while k < src.size() {
+            let c = src.get(k);
+            inputs.push(Input { labels: c.labels, text: c.text, tts: c.tts });
+            k += stride;
+        }
+    }
+    for (i, inp) in inputs.iter().enumerate() {
+        std::fs::write(format!("{}/in_{}.adf", tmp.0, i), &inp.text).unwrap_or_else(|_| machinery_error("cannot write input file"));
+    }
+    let mut jobs: Vec<Job> = vec![];
+    for file in 0..inputs.len() {
+        for mode in 0..3 {
+            for sort in 0..3 {
+                for f in flagsets {
+                    for h in heus {
+                        jobs.push(Job { file, mode, sort, flags: *f, heu: *h });
+                    }
+                }
+            }
+        }
+    }
+    let res = run.par_family(
+        &format!("CLI clause: {} runs of the binary over {} files x 3 modes x 3 sortings", jobs.len(), inputs.len()),
+        jobs.len() as u64,
+        || 0u64,
+        |st, j| {
+            if run.violations_so_far() > 300 {
+                return;
+            }
+            let job = &jobs[j as usize];
+            let inp = &inputs[job.file];
+            *st += 1;
+            let path = format!("{}/in_{}.adf", tmp.0, job.file);
+            for (kind, msg) in cli_case(&cli, &path, inp, MODES[job.mode], job.sort, job.flags, job.heu.map(|h| HEUS[h])) {
+                let flags: Vec<&str> = (0..10).filter(|i| job.flags >> i & 1 == 1).map(|i| FLAGS[i]).collect();
+                run.violation(
+                    &format!("cli:{}", kind),
+                    format!("{} [--lib {} {} {} {}] on {}", msg, MODES[job.mode], SORTS[job.sort], flags.join(" "), job.heu.map(|h| format!("--heu {}", HEUS[h])).unwrap_or_default(), inp.text.replace('\n', "")),
+                    json!({"type": "cli", "text": inp.text, "labels": inp.labels, "tts": inp.tts, "mode": MODES[job.mode], "sort": job.sort, "flags": job.flags, "heu": job.heu.map(|h| HEUS[h])}),
+                );
+            }
+        },
+        &|j| json!({"type": "cli", "job": j}),
+    );
+    for st in res {
+        run.add_counts(0, st, st, 0);
+    }
+    drop(tmp);
 }
 
 struct Job {
@@ -270,7 +335,7 @@ pub fn run_c15(run: &Run) {
     // fixed files: all subsets
     let nfixed = inputs.len() - fixed_from;
     for k in 0..nfixed {
-        if quick && k % 3 != (run.seed % 3) as usize {
+        if quick && k % 3 != (run.seed % 3) as usize && k < 12 {
             continue;
         }
         for mode in 0..3 {
